@@ -291,6 +291,47 @@ func (engine) Generate(r *lib.Rng, tier string, i int) any {
 			}
 		}
 	}
+	// one case in twelve gets one more rerun request on a node that is otherwise fine (resumed runs:
+	// what fails AFTER the run has been resumed must be reported like in an uninterrupted run)
+	if !hasConv && r.Chance(8, 100) {
+		// preferably in front of something that fails: a stage of a graph one of whose later stages holds a fault
+		faultLater := func(s slot) bool {
+			if s.g == nil {
+				return false
+			}
+			for _, st := range s.g.Stages[s.stage+1:] {
+				for _, n := range st {
+					if (n.Kind == "lam" && n.Beh != "ok") || (n.Sub != nil && hasFault(n.Sub)) {
+						return true
+					}
+					for _, t := range n.Tools {
+						if t.Beh != "ok" {
+							return true
+						}
+					}
+				}
+			}
+			return false
+		}
+		pick := -1
+		for _, si := range perm {
+			s := g.slots[si]
+			if s.t != nil || s.tail || s.n.Beh != "ok" || s.n.Flav == "t" {
+				continue
+			}
+			if pick < 0 {
+				pick = si
+			}
+			if faultLater(s) {
+				pick = si
+				break
+			}
+		}
+		if pick >= 0 {
+			g.slots[pick].n.Beh = "rerun"
+			hasRerun = true
+		}
+	}
 	for _, b := range g.brs { // the branch conditions are user code too
 		if !r.Chance(15, 100) {
 			continue
@@ -325,6 +366,15 @@ func (engine) Generate(r *lib.Rng, tier string, i int) any {
 	// the step limit given as a call option: below / at / above what the top graph needs
 	if !c.G.Dag && !c.G.WF && r.Chance(8, 100) {
 		c.RtMax = r.Range(1, len(c.G.Stages)+2)
+	}
+	// a case with a rerun request is mostly resumed from its checkpoint until it no longer interrupts
+	// (not with an explicit step limit: the step counter restarts on resume; not
+	// with state handlers: the local state would have to be a registered serializable type; not with a
+	// transform-native node asking for the rerun: it has not read its input, and by design a rerun node is
+	// given an EMPTY input when the run is resumed — whatever waited on that input, an error item
+	// included, is dropped: the rerun-input semantics are property C05's, the case would not be exact here)
+	if hasBeh(c.G, "rerun") && !lazyRerun(c.G) && c.RtMax == 0 && !anyMax(c.G) && !hasBeh(c.G, "prefail") && !hasBeh(c.G, "postfail") && r.Chance(65, 100) {
+		c.Resume = true
 	}
 	// a fifth of the cases call the compiled runnable a second time
 	c.Twice = r.Chance(20, 100)
@@ -403,4 +453,48 @@ func (g *gen) sharedItem(top *Graph) {
 	}
 	first(&Graph{Stages: [][]*Node{next}})
 	top.Stages[s+1] = next
+}
+
+// anyMax: some graph of the case has an explicit step limit.
+func anyMax(g *Graph) bool {
+	if g.Max > 0 {
+		return true
+	}
+	for _, st := range g.Stages {
+		for _, n := range st {
+			if n.Sub != nil && anyMax(n.Sub) {
+				return true
+			}
+		}
+	}
+	return false
+}
+
+// lazyRerun: some transform-native lambda of the case asks for a rerun.
+func lazyRerun(g *Graph) bool {
+	for _, st := range g.Stages {
+		for _, n := range st {
+			if (n.Beh == "rerun" && n.Flav == "t") || (n.Sub != nil && lazyRerun(n.Sub)) {
+				return true
+			}
+		}
+	}
+	return false
+}
+
+// hasFault: some node / tool call of the graph (at any depth) is not a plain success.
+func hasFault(g *Graph) bool {
+	for _, st := range g.Stages {
+		for _, n := range st {
+			if (n.Kind == "lam" && n.Beh != "ok") || (n.Sub != nil && hasFault(n.Sub)) {
+				return true
+			}
+			for _, t := range n.Tools {
+				if t.Beh != "ok" {
+					return true
+				}
+			}
+		}
+	}
+	return false
 }
